@@ -67,10 +67,10 @@ func plans(id, tier string) (Plan, bool) {
 	case "C03":
 		return Plan{Level: "exploration", Jobs: []Job{
 			{Pkg: pkgV2, Harness: "c03_small", Shards: pick(6, 16)},
-			{Pkg: pkgV2, Harness: "c03_small", Params: fmt.Sprintf("vocab=accented;maxlen=%d", pick(5, 7)), Shards: pick(4, 16)},
+			{Pkg: pkgV2, Harness: "c03_small", Params: fmt.Sprintf("vocab=accented;maxlen=%d", pick(5, 6)), Shards: pick(4, 16)},
 			{Pkg: pkgV2, Harness: "c03_corpus", Params: "t=0.8", Shards: pick(10, 16)},
 			{Pkg: pkgV2, Harness: "c03_corpus", Params: "t=0.8;families=window;split=4", Shards: 16},
-			{Pkg: pkgV2, Harness: "c03_corpus", Params: "t=0.5;families=" + map[bool]string{false: "exact", true: "exact,edit1,truncate,scenario;ndocs=30"}[th], Shards: pick(6, 16)},
+			{Pkg: pkgV2, Harness: "c03_corpus", Params: "t=0.5;families=" + map[bool]string{false: "exact", true: "exact,edit1,truncate,scenario;ndocs=16"}[th], Shards: pick(6, 16)},
 			{Pkg: pkgV2, Harness: "c03_bytes", Shards: pick(2, 8)},
 			{Pkg: pkgV2, Harness: "c03_names", Shards: 1},
 		}}, true
@@ -164,6 +164,9 @@ func plans(id, tier string) (Plan, bool) {
 			jobs = append(jobs, Job{Pkg: pkgV2, Harness: "c10_total", Params: fmt.Sprintf("shape=%d;maxlen=%d", sh, ml), Shards: shards, MaxProcs: 2})
 		}
 		jobs = append(jobs, Job{Pkg: pkgV2, Harness: "c10_total", Params: fmt.Sprintf("shape=4;maxlen=%d", pick(1, 2)), Shards: pick(4, 16), MaxProcs: 2})
+		if th {
+			jobs = append(jobs, Job{Pkg: pkgV2, Harness: "c10_total", Params: "shape=3;maxlen=3;ts=all", Shards: 16, MaxProcs: 2})
+		}
 		jobs = append(jobs, Job{Pkg: pkgV2, Harness: "c10_window", Shards: 16})
 		return Plan{Level: "exploration", Jobs: jobs}, true
 	case "C11":
